@@ -141,6 +141,28 @@ func validEncoding(r *rand.Rand, kind string) []byte {
 		full, empty := s2.Point{Vector: r3.Vector{Z: -1}}, s2.Point{Vector: r3.Vector{Z: 1}}
 		switch r.Intn(6) {
 		case 4, 5: // a loop that declares zero vertices next to an ordinary one (Loop.decode allows it)
+			if r.Intn(2) == 0 {
+				// more than 12 loops (the polygon then keeps a cumulative edge table) with one or two zero-vertex
+				// loops somewhere between them
+				isl := gen.Islands(r, gen.RandCenter(r), gen.LogUniform(r, 1e-2, 0.8), 13+r.Intn(8))
+				var ls [][]s2.Point
+				var oi []bool
+				var dp []int32
+				bound := s2.EmptyRect()
+				holes := 1 + r.Intn(2)
+				at := map[int]bool{r.Intn(len(isl)): true, r.Intn(len(isl) + 1): holes == 2}
+				for i := 0; i <= len(isl); i++ {
+					if at[i] {
+						ls, oi, dp = append(ls, []s2.Point{}), append(oi, r.Intn(2) == 0), append(dp, 0)
+					}
+					if i < len(isl) {
+						l := s2.LoopFromPoints(append([]s2.Point(nil), isl[i]...))
+						ls, oi, dp = append(ls, isl[i]), append(oi, l.ContainsOrigin()), append(dp, 0)
+						bound = bound.Union(l.RectBound())
+					}
+				}
+				return foreignLossless(ls, oi, dp, false, bound)
+			}
 			sp := gen.StarLoop(r, gen.RandCenter(r), 3+r.Intn(6), 0.1, 0.2)
 			ls, oi, dp := [][]s2.Point{{}, sp.Vs}, []bool{r.Intn(2) == 0, s2.LoopFromPoints(sp.Vs).ContainsOrigin()}, []int32{0, 0}
 			if r.Intn(2) == 0 {
